@@ -92,19 +92,22 @@ type c15Bad struct {
 }
 
 type c15Seq struct {
-	First   string `json:"first"`
-	Status  int    `json:"status"`
-	Value   string `json:"value"` // small | big | nil | bad | svcerr
-	Writes  []int  `json:"writes"`
-	Pretty  bool   `json:"pretty"`
-	Accept  string `json:"accept"`
-	Coding  string `json:"coding"` // "" | gzip | deflate
-	UseResp bool   `json:"pretty_via_response"`
-	Adapter bool   `json:"middleware_adapter_between_observer_and_handler"`
-	Copy    bool   `json:"body_chunks_via_io_copy"` // body chunks are sent with io.Copy(resp, reader) instead of resp.Write
-	HWF     bool   `json:"plain_handler_via_HandleWithFilter"`
-	Nested  bool   `json:"container_nested_as_plain_handler_of_an_outer_container"` // the observing filter sits on the outer container
-	Panic   bool   `json:"handler_panics_after_its_calls"`                          // recovery is on; IF the observing filter resumes, what it reads must be true
+	First     string `json:"first"`
+	Status    int    `json:"status"`
+	Value     string `json:"value"` // small | big | nil | bad | svcerr
+	Writes    []int  `json:"writes"`
+	Pretty    bool   `json:"pretty"`
+	Accept    string `json:"accept"`
+	Coding    string `json:"coding"` // "" | gzip | deflate
+	UseResp   bool   `json:"pretty_via_response"`
+	Adapter   bool   `json:"middleware_adapter_between_observer_and_handler"`
+	Copy      bool   `json:"body_chunks_via_io_copy"` // body chunks are sent with io.Copy(resp, reader) instead of resp.Write
+	HWF       bool   `json:"plain_handler_via_HandleWithFilter"`
+	Declared  bool   `json:"handler_declares_content_length_4242"` // a Content-Length header set by the handler is a declaration, not a count
+	Unrouted  string `json:"routing_failure,omitempty"`            // "404" | "405": no route function runs, the framework's (or a custom) error handler writes
+	CustomErr bool   `json:"custom_service_error_handler_writes_a_body_without_status"`
+	Nested    bool   `json:"container_nested_as_plain_handler_of_an_outer_container"` // the observing filter sits on the outer container
+	Panic     bool   `json:"handler_panics_after_its_calls"`                          // recovery is on; IF the observing filter resumes, what it reads must be true
 }
 
 var c15Firsts = []string{"none", "WriteHeader", "WriteEntity", "WriteHeaderAndEntity", "WriteAsJson", "WriteAsXml", "WriteHeaderAndJson", "WriteHeaderAndXml", "WriteJson",
@@ -161,6 +164,12 @@ func runC15(s *c15Seq, limit int) *c15Run {
 			w.Write([]byte("recovered"))
 		})
 	}
+	if s.CustomErr {
+		// an application that answers routing failures with a page of its own and never sets a status (200 goes out)
+		c.ServiceErrorHandler(func(err restful.ServiceError, req *restful.Request, resp *restful.Response) {
+			resp.Write([]byte("<html>single page application: " + strings.Repeat("i", 40) + "</html>"))
+		})
+	}
 	if s.Adapter {
 		// an adapted net/http middleware sits between the observing filter and the handler
 		c.Filter(restful.HttpMiddlewareHandlerToFilter(func(next http.Handler) http.Handler {
@@ -175,6 +184,9 @@ func runC15(s *c15Seq, limit int) *c15Run {
 		call := func(f func() error) {
 			cur = len(run.errs)
 			run.errs = append(run.errs, f())
+		}
+		if s.Declared {
+			resp.Header().Set("Content-Length", "4242")
 		}
 		v := s.value()
 		switch s.First {
@@ -233,6 +245,9 @@ func runC15(s *c15Seq, limit int) *c15Run {
 			cur = len(run.errs)
 			run.errs = append(run.errs, f())
 		}
+		if s.Declared {
+			w.Header().Set("Content-Length", "4242")
+		}
 		if s.First != "none" {
 			call(func() error { w.WriteHeader(s.Status); return nil })
 		}
@@ -245,7 +260,11 @@ func runC15(s *c15Seq, limit int) *c15Run {
 	ws.Route(ws.GET("/csv").Produces("text/csv").To(h))
 	c.Add(ws)
 	req := rt.Req{Method: "GET", Path: "/b/x", Hdr: map[string]string{}}
-	if s.HWF {
+	if s.Unrouted == "404" {
+		req.Path = "/b/no-such-resource"
+	} else if s.Unrouted == "405" {
+		req.Method = "DELETE"
+	} else if s.HWF {
 		req.Path = "/hwf/x"
 	} else if s.First == "WriteEntity406" {
 		req.Path = "/b/csv"
@@ -326,7 +345,7 @@ func c15Huge(ctx *core.Ctx) {
 
 func c15(ctx *core.Ctx) {
 	quietLogs()
-	ctx.Rule("generated call sequences: first call in {none, WriteHeader, WriteEntity (JSON/XML by Accept, also the 406 dead end), WriteHeaderAndEntity, WriteAsJson/Xml, WriteHeaderAndJson/Xml, WriteJson, WriteError (err / nil), WriteErrorString, WriteServiceError} with payload {small, 500-byte, nil, unmarshalable} and pretty-print on/off (package switch or Response.PrettyPrint), then 0-5 body chunks of {0,1,10,300} bytes sent with Write or io.Copy (the underlying writer is an io.ReaderFrom, as net/http's is); every 9th sequence is a plain handler behind HandleWithFilter (WriteHeader + Write); every 13th sequence runs on a container that is itself the plain handler (HandleWithFilter) of an outer container whose filter does the observing; statuses include 1xx, 204, 304, 99 and 1000; every 11th sequence ends in a handler panic with recovery on (if the observing filter resumes at all, what it reads is judged); three responses of 2 GiB - 1, 2 GiB + 1 MiB and 4 GiB + 5 bytes streamed in 64 MiB calls; without coding and with gzip/deflate in between. Faults: the underlying writer accepts exactly k bytes then fails every call, k enumerated over EVERY byte position of the fault-free output (call boundaries and inside calls). A trailing container filter reads StatusCode()/ContentLength(). Oracle: StatusCode() == status the underlying writer received (200 if none); without coding ContentLength() == bytes accepted and the call during which the writer first failed returns the injected error; with coding (fault-free) ContentLength() == plaintext length == decoded length. Non-trivial = a run with >= 1 body byte or a non-200 status; distinct by (first call, value, pretty, coding, fault class: none/at-boundary/inside-call, failing call kind).")
+	ctx.Rule("generated call sequences: first call in {none, WriteHeader, WriteEntity (JSON/XML by Accept, also the 406 dead end), WriteHeaderAndEntity, WriteAsJson/Xml, WriteHeaderAndJson/Xml, WriteJson, WriteError (err / nil), WriteErrorString, WriteServiceError} with payload {small, 500-byte, nil, unmarshalable} and pretty-print on/off (package switch or Response.PrettyPrint), then 0-5 body chunks of {0,1,10,300} bytes sent with Write or io.Copy (the underlying writer is an io.ReaderFrom, as net/http's is); every 9th sequence is a plain handler behind HandleWithFilter (WriteHeader + Write); every 6th handler declares a Content-Length of its own in the header; every 17th sequence is a routing failure (404 / 405) answered by the default error handler or by a custom ServiceErrorHandler that writes a page without setting a status; every 13th sequence runs on a container that is itself the plain handler (HandleWithFilter) of an outer container whose filter does the observing; statuses include 1xx, 204, 304, 99 and 1000; every 11th sequence ends in a handler panic with recovery on (if the observing filter resumes at all, what it reads is judged); three responses of 2 GiB - 1, 2 GiB + 1 MiB and 4 GiB + 5 bytes streamed in 64 MiB calls; without coding and with gzip/deflate in between. Faults: the underlying writer accepts exactly k bytes then fails every call, k enumerated over EVERY byte position of the fault-free output (call boundaries and inside calls). A trailing container filter reads StatusCode()/ContentLength(). Oracle: StatusCode() == status the underlying writer received (200 if none); without coding ContentLength() == bytes accepted and the call during which the writer first failed returns the injected error; with coding (fault-free) ContentLength() == plaintext length == decoded length. Non-trivial = a run with >= 1 body byte or a non-200 status; distinct by (first call, value, pretty, coding, fault class: none/at-boundary/inside-call, failing call kind).")
 	ctx.Assume("at most one status-setting call, first in the sequence (as the property states)")
 	defer func() { restful.PrettyPrintResponses = true }()
 	if !ctx.Skip(0) {
@@ -346,6 +365,13 @@ func c15(ctx *core.Ctx) {
 		}
 		s.Panic = si%11 == 6 && !s.HWF
 		s.Nested = si%13 == 7 && !s.HWF && !s.Panic && s.Coding == ""
+		s.Declared = si%6 == 1 && s.Coding == ""
+		if si%17 == 9 && !s.HWF && !s.Panic {
+			// routing failures: the observing filter runs around the error response
+			s.Unrouted = []string{"404", "405"}[(si/17)%2]
+			s.CustomErr = (si/34)%2 == 1
+			s.First, s.Writes = "none", nil
+		}
 		for i := 0; i < r.Intn(6); i++ {
 			s.Writes = append(s.Writes, []int{0, 1, 10, 300}[r.Intn(4)])
 		}
@@ -444,6 +470,12 @@ func judgeC15(ctx *core.Ctx, si int, s *c15Seq, run *c15Run, k int, cls string) 
 	if s.Nested {
 		cell = "nested-container:" + cell
 	}
+	if s.Declared {
+		cell += ":declared-length"
+	}
+	if s.Unrouted != "" {
+		cell = fmt.Sprintf("routing-failure-%s:custom-handler=%v:coding=%s", s.Unrouted, s.CustomErr, s.Coding)
+	}
 	if run.panicked != nil {
 		ctx.Violation(si, "c15:panic:"+cell, fmt.Sprintf("panic: %v", run.panicked), doc)
 		return
@@ -475,7 +507,7 @@ func judgeC15(ctx *core.Ctx, si int, s *c15Seq, run *c15Run, k int, cls string) 
 		if run.lenSeen != run.fw.accepted {
 			ctx.Violation(si, "c15:length:"+cell+":"+cls, fmt.Sprintf("ContentLength()=%d, the underlying writer accepted %d bytes", run.lenSeen, run.fw.accepted), doc)
 		}
-		if fc := run.fw.failedAtCall; fc >= 0 {
+		if fc := run.fw.failedAtCall; fc >= 0 && s.Unrouted == "" {
 			if fc >= len(run.errs) || run.errs[fc] == nil || !errors.Is(run.errs[fc], errInjected) {
 				kind := "Write"
 				if fc == 0 && s.First != "none" {
